@@ -685,7 +685,7 @@ pub fn check_drops(w: &mut World) {
     for t in 0..w.toks.len() {
         if w.toks[t].drops == 0 {
             let p = w.toks[t].producer.map(|n| w.path(n)).unwrap_or_else(|| "the harness".into());
-            let f = w.tok_family(t as u32);
+            let f = w.tok_family(crate::val::handle_of(t));
             w.violate_f(Oracle::DV, f, format!("value t{} produced by {} was never dropped (leaked)", t, p));
         }
     }
